@@ -268,6 +268,14 @@ Definition dec_oid (bs : list Z) : result (list Z) :=
     end
   end.
 
+(** the arcs X.680/X.690 allow: first arc 0..2, second below 40 unless the first is 2 *)
+Definition oid_ok (arcs : list Z) : bool :=
+  match arcs with
+  | a0 :: a1 :: _ =>
+    forallb (fun a => 0 <=? a) arcs && (a0 <=? 2) && ((a0 =? 2) || (a1 <? 40))
+  | _ => false
+  end.
+
 (** * Repetition: [for _ in range(n)] with early exit on the first error;
     binary recursion on the count so that a huge count costs nothing once
     an iteration has failed. *)
